@@ -541,7 +541,8 @@ class ModelExport:
             case _:
                 return None
 
-        return _mangle_name(node, name)
+        # the symbol of the function's own definition / declaration node
+        return _mangle_name(func_node, name)
 
     def find_const_input(self, node: Node) -> model.Term | None:
         """Find and export the constant that a node is connected to, if any."""
